@@ -226,6 +226,24 @@ def run(ctx):
             except Exception:
                 pass
         if bad_args: ctx.violation(dict(kind='method-args-write-read', **bad_args))
+        # ONE-argument methods whose argument is itself a list / tuple / text (a writer that "unwraps" a lone sequence would take its elements
+        # for the argument list): written, read back through the method, compared
+        for t, val in ((('array', ('string',), None), ['ab']), (('array', ('string',), None), ['ab', 'cd']), (('array', ('array', ('string',), None), None), [['ab', 'cd']]),
+                       (('array', ('u', 1), None), [5]), (('array', ('u', 1), 1), [7]), (('string',), 'x'), (('blob',), b'y'), (('array', ('i', 4), None), []), (('vec', 8), (1.0, 2.0))):
+            try: m = EntityMethod('one', True, [MethodArgument(lib.make(t))], 1)
+            except Exception: continue
+            st = io.BytesIO(); ctx.case(None); ctx.count('one-argument-method')
+            try: m.write_to_stream(st, val)
+            except Exception as e:
+                ctx.violation(dict(kind='method-args-write-read', types=[impl.type_syntax(t)], value=repr(val), refused='%s: %s' % (type(e).__name__, str(e)[:120]),
+                                   how='EntityMethod with one argument of that type: write_to_stream(stream, value) must accept the value as THE argument')); break
+            rd = io.BytesIO(st.getvalue())
+            try: args, kwargs = m.create_from_stream(rd); back = args[0] if args else None
+            except Exception as e: back = 'read fails: ' + type(e).__name__
+            norm = lambda x: [norm(y) for y in x] if isinstance(x, (list, tuple)) else x
+            if norm(back) != norm(val) or rd.tell() != len(st.getvalue()):
+                ctx.violation(dict(kind='method-args-write-read', types=[impl.type_syntax(t)], value=repr(val), written=st.getvalue().hex(), read_back=repr(back)[:200],
+                                   how='EntityMethod with one argument of that type: write_to_stream(stream, value), then create_from_stream on the bytes written')); break
     finally:
         lib.close()
     ctx.traces_validated += len(cases)
